@@ -9,6 +9,7 @@ import gen_fsm
 import gen_comm
 import gen_timer
 import gen_bmp
+import gen_mrt
 
 GENERATORS = {
     'enums': (gen_enums.gen, 'EnumTables.v'),
@@ -21,4 +22,5 @@ GENERATORS = {
     'comm': (gen_comm.gen, 'CommTables.v'),
     'timer': (gen_timer.gen, 'TimerConsts.v'),
     'bmp': (gen_bmp.gen, 'BmpPins.v'),
+    'mrt': (gen_mrt.gen, 'MrtTables.v'),
 }
